@@ -385,6 +385,7 @@ func kvString(m map[string]string) string {
 //     reason the two play the same role in the codec);
 //   - every writer field that a method of the writer assigns (loop-carried codec state) is set,
 //     except the listed ones.
+//
 // A writer that resumes from a different state than the reader reached encodes the next sample
 // against a base the reader does not have.
 func (c *Ctx) ResumeState(rule, fnRef, appRef, itRef string, pairs map[string]string, except map[string]string) bool {
@@ -517,10 +518,17 @@ func (c *Ctx) PolarityAgree(rule, fnRef string, words []string, min int) bool {
 				for i := range s.Lhs {
 					check(s.Lhs[i], s.Rhs[i], s.Pos())
 				}
+			} else if len(s.Rhs) == 1 {
+				// a, b = f(…): all targets against the one source expression
+				check(&ast.CompositeLit{Elts: s.Lhs}, s.Rhs[0], s.Pos())
 			}
 		case *ast.KeyValueExpr:
 			if _, ok := s.Key.(*ast.Ident); ok {
 				check(s.Key, s.Value, s.Pos())
+			}
+		case *ast.CallExpr:
+			if id, ok := s.Fun.(*ast.Ident); ok && id.Name == "copy" && len(s.Args) == 2 {
+				check(s.Args[0], s.Args[1], s.Pos())
 			}
 		case *ast.RangeStmt:
 			ast.Inspect(s.Body, func(y ast.Node) bool {
@@ -546,3 +554,6 @@ func (c *Ctx) PolarityAgree(rule, fnRef string, words []string, min int) bool {
 	c.Pass(rule, fnRef, what, fmt.Sprintf("%d sites", sites))
 	return true
 }
+
+// StructFields lists the field names of a named struct type (protobuf XXX_ fields excluded).
+func StructFields(n *types.Named) []string { return structFields(n) }
